@@ -7,6 +7,7 @@ import Mathlib.Data.List.Count
 import Mathlib.Data.List.Perm.Subperm
 import Mathlib.Tactic.Tauto
 import Mathlib.Tactic.Ring
+import Mathlib.Tactic.Linarith
 
 /-! # C14 — the plaquette spanning tree and the enumeration of flux sectors
 
@@ -606,6 +607,285 @@ theorem sectors_injective (S : Sys) (hS : OK S) {ps es : List Nat} (hg : Grown S
   sectors_differ S hS hg u hu _ _ (length_bitsMSB _ _) (length_bitsMSB _ _)
     (fun h => hne (digits_injective hn hn' h))
 
+/-! ### the enumeration reaches precisely the parity class -/
+
+theorem ofBits_lt (bs : List Bool) : ofBits bs < 2 ^ bs.length := by
+  induction bs with
+  | nil => simp [ofBits]
+  | cons b bs ih =>
+    simp only [ofBits, List.length_cons, Nat.pow_succ]
+    split <;> omega
+
+theorem bitsMSB_ofBits (bs : List Bool) : bitsMSB (ofBits bs) bs.length = bs := by
+  induction bs with
+  | nil => rfl
+  | cons b bs ih =>
+    simp only [List.length_cons, bitsMSB, ofBits]
+    have hlt := ofBits_lt bs
+    congr 1
+    · cases b
+      · simp only [Bool.false_eq_true, if_false, Nat.zero_add]
+        rw [Nat.div_eq_of_lt hlt]; rfl
+      · simp only [if_true]
+        have : (2 ^ bs.length + ofBits bs) / 2 ^ bs.length = 1 := by
+          rw [Nat.add_div_left _ (Nat.two_pow_pos _), Nat.div_eq_of_lt hlt]
+        rw [this]; rfl
+    · -- the lower digits do not see the leading one
+      have key : ∀ (N : Nat) (a m : Nat), N ≤ m → bitsMSB (a * 2 ^ m + ofBits bs) N = bitsMSB (ofBits bs) N := by
+        intro N
+        induction N with
+        | zero => intros; rfl
+        | succ N ihN =>
+          intro a m hm
+          simp only [bitsMSB]
+          rw [ihN a m (by omega)]
+          congr 2
+          obtain ⟨d, rfl⟩ : ∃ d, m = N + 1 + d := ⟨m - (N + 1), by omega⟩
+          have : a * 2 ^ (N + 1 + d) = (a * 2 ^ d * 2) * 2 ^ N := by
+            rw [Nat.pow_add, Nat.pow_succ]; ring
+          rw [this, Nat.add_comm, Nat.add_mul_div_right _ _ (Nat.two_pow_pos _)]
+          omega
+      cases b
+      · simp only [Bool.false_eq_true, if_false, Nat.zero_add]; exact ih
+      · simp only [if_true]
+        have := key bs.length 1 bs.length (Nat.le_refl _)
+        rw [Nat.one_mul] at this
+        rw [this]; exact ih
+
+theorem prod_flip_one (l : List Nat) (hnd : l.Nodup) (q : Nat) (hq : q ∈ l) (f : Nat → Int) :
+    (l.map fun r => if r = q then -(f r) else f r).prod = -(l.map f).prod := by
+  induction l with
+  | nil => simp at hq
+  | cons a t ih =>
+    rw [List.nodup_cons] at hnd
+    simp only [List.map_cons, List.prod_cons]
+    by_cases ha : a = q
+    · subst ha
+      have : (t.map fun r => if r = a then -(f r) else f r) = t.map f := by
+        apply List.map_congr_left
+        intro r hr
+        have : r ≠ a := fun h => hnd.1 (h ▸ hr)
+        simp [this]
+      rw [this]; simp
+    · have hqt : q ∈ t := by
+        rcases List.mem_cons.mp hq with h | h
+        · exact absurd h.symm ha
+        · exact h
+      rw [ih hnd.2 hqt]; simp [ha]
+
+/-- setting one bond multiplies the flux of a plaquette by −1 exactly when the bond changes and borders it -/
+theorem setOne_flux (S : Sys) (hS : OK S) (v : Nat → Int) (hv : ∀ e, v e = 1 ∨ v e = -1) (e : Nat) (x : Bool) (r : Nat) :
+    flux (fun y => if y = e then bval x else v y) (S.pdarts r)
+      = (if v e ≠ bval x ∧ e ∈ S.pedges r then -1 else 1) * flux v (S.pdarts r) := by
+  rw [setOne_eq v e x (hv e)]
+  by_cases h : v e = bval x
+  · simp [h]
+  · rw [if_neg h, C05.single_flip v e _ (hS.nodup r)]
+    simp only [ne_eq, h, not_false_eq_true, true_and]
+    rfl
+
+/-- among the plaquettes already in the tree the new edge borders only `q` -/
+theorem Grown.new_edge_iff {S : Sys} (hS : OK S) {ps : List Nat} {e p q : Nat} (hp : p ∉ ps)
+    (hs : S.sides e = (some p, some q) ∨ S.sides e = (some q, some p)) {r : Nat} (hr : r ∈ ps) (hrF : r < S.F) :
+    e ∈ S.pedges r ↔ r = q := by
+  rw [hS.mem_iff e r hrF]
+  constructor
+  · rintro (h | h) <;> rcases hs with hs | hs <;> rw [hs] at h <;> simp only [Option.some.injEq] at h
+    · exact absurd (h ▸ hr) hp
+    · exact h.symm
+    · exact h.symm
+    · exact absurd (h ▸ hr) hp
+  · rintro rfl
+    rcases hs with hs | hs <;> simp [hs]
+
+theorem Grown.lt_F {S : Sys} (hF : 0 < S.F) {ps es : List Nat} (h : Grown S ps es) : ∀ p ∈ ps, p < S.F := by
+  induction h with
+  | base => intro p hp; simp at hp; omega
+  | add hg _ _ hlt _ ih =>
+    intro r hr
+    rcases List.mem_append.mp hr with h | h
+    · exact ih r h
+    · simp at h; omega
+
+
+
+/-- the flux of the freshly attached plaquette does not depend on the earlier tree bonds -/
+theorem flux_new_plaq {S : Sys} (hS : OK S) {ps es : List Nat} (hg : Grown S ps es) {p : Nat} (hp : p ∉ ps) (hlt : p < S.F)
+    (u : Nat → Int) (cs : List Bool) : flux (setBonds u es cs) (S.pdarts p) = flux u (S.pdarts p) := by
+  apply flux_congr
+  intro d hd
+  apply setBonds_notMem
+  intro hy
+  have hdm : d.1 ∈ S.pedges p := List.mem_map.mpr ⟨d, hd, rfl⟩
+  obtain ⟨a, b, h1, h2, h3⟩ := hg.sides_in d.1 hy
+  rcases (hS.mem_iff d.1 p hlt).mp hdm with h | h <;> rw [h1] at h <;> simp only [Option.some.injEq] at h
+  · exact hp (h ▸ h2)
+  · exact hp (h ▸ h3)
+
+/-- **C14.4a** every integer gives a sector in the parity class of the base configuration: the product of
+    the fluxes over the plaquettes of the tree does not change -/
+theorem sectors_parity (S : Sys) (hS : OK S) (hF : 0 < S.F) {ps es : List Nat} (hg : Grown S ps es) (u : Nat → Int)
+    (hu : ∀ e, u e = 1 ∨ u e = -1) :
+    ∀ bs : List Bool, bs.length = es.length →
+      (ps.map fun p => flux (setBonds u es bs) (S.pdarts p)).prod = (ps.map fun p => flux u (S.pdarts p)).prod := by
+  induction hg with
+  | base => intro bs h; simp only [List.length_nil, List.length_eq_zero_iff] at h; subst h; rfl
+  | @add ps es e p q hg hp hq hlt hs ih =>
+    intro bs h1
+    have hb : bs ≠ [] := by intro h; simp [h] at h1
+    obtain ⟨cs, x, rfl⟩ : ∃ cs x, bs = cs ++ [x] := ⟨bs.dropLast, bs.getLast hb, (List.dropLast_concat_getLast hb).symm⟩
+    simp only [List.length_append, List.length_singleton, Nat.add_right_cancel_iff] at h1
+    rw [setBonds_concat u es cs e x h1]
+    set v := setBonds u es cs with hv
+    have hvpm := setBonds_pm u hu es cs
+    have he_es : e ∉ es := by
+      have := (Grown.add hg hp hq hlt hs).nodup_edges
+      rw [List.nodup_append] at this
+      intro h; exact this.2.2 e h e (by simp) rfl
+    have hve : v e = u e := setBonds_notMem u es cs e he_es
+    have he_p : e ∈ S.pedges p := (hS.mem_iff e p hlt).mpr (by rcases hs with hs | hs <;> simp [hs])
+    simp only [List.map_append, List.map_cons, List.map_nil, List.prod_append, List.prod_cons, List.prod_nil, mul_one]
+    rw [setOne_flux S hS v hvpm e x p, flux_new_plaq hS hg hp hlt u cs, ← ih cs h1]
+    by_cases hc : v e = bval x
+    · have : (ps.map fun r => flux (fun y => if y = e then bval x else v y) (S.pdarts r))
+          = ps.map fun r => flux v (S.pdarts r) := by
+        apply List.map_congr_left; intro r _
+        rw [setOne_flux S hS v hvpm e x r]; simp [hc]
+      rw [this]; simp only [hc, ne_eq, not_true_eq_false, false_and, if_false, one_mul]; rfl
+    · have : (ps.map fun r => flux (fun y => if y = e then bval x else v y) (S.pdarts r))
+          = ps.map fun r => if r = q then -(flux v (S.pdarts r)) else flux v (S.pdarts r) := by
+        apply List.map_congr_left; intro r hr
+        rw [setOne_flux S hS v hvpm e x r]
+        simp only [Grown.new_edge_iff hS hp hs hr (hg.lt_F hF r hr)]
+        by_cases hrq : r = q <;> simp [hc, hrq]
+      rw [this, prod_flip_one ps hg.nodup_plaq q hq]
+      simp only [ne_eq, hc, not_false_eq_true, he_p, and_self, if_true]
+      ring
+
+/-- **C14.4b** conversely every sector of that parity class is reached: for every assignment `φ` of ±1 to the
+    plaquettes whose product equals the product of the base fluxes there is a digit string producing it -/
+theorem sectors_reach (S : Sys) (hS : OK S) (hF : 0 < S.F) {ps es : List Nat} (hg : Grown S ps es) (u : Nat → Int)
+    (hu : ∀ e, u e = 1 ∨ u e = -1) :
+    ∀ φ : Nat → Int, (∀ p, φ p = 1 ∨ φ p = -1) →
+      (ps.map φ).prod = (ps.map fun p => flux u (S.pdarts p)).prod →
+      ∃ bs : List Bool, bs.length = es.length ∧ ∀ p ∈ ps, flux (setBonds u es bs) (S.pdarts p) = φ p := by
+  induction hg with
+  | base =>
+    intro φ _ hpar
+    refine ⟨[], rfl, ?_⟩
+    intro p hp
+    simp only [List.mem_singleton] at hp; subst hp
+    show flux u (S.pdarts 0) = φ 0
+    simpa using hpar.symm
+  | @add ps es e p q hg hp hq hlt hs ih =>
+    intro φ hφ hpar
+    have hs_pm : flux u (S.pdarts p) = 1 ∨ flux u (S.pdarts p) = -1 := C05.flux_pm_one u _ (fun d _ => hu d.1)
+    obtain ⟨s, hs_def⟩ : ∃ s, flux u (S.pdarts p) = s := ⟨_, rfl⟩
+    rw [hs_def] at hs_pm
+    have he_es : e ∉ es := by
+      have := (Grown.add hg hp hq hlt hs).nodup_edges
+      rw [List.nodup_append] at this
+      intro h; exact this.2.2 e h e (by simp) rfl
+    have he_p : e ∈ S.pedges p := (hS.mem_iff e p hlt).mpr (by rcases hs with hs | hs <;> simp [hs])
+    simp only [List.map_append, List.map_cons, List.map_nil, List.prod_append, List.prod_cons, List.prod_nil, mul_one] at hpar
+    rw [hs_def] at hpar
+    by_cases hc : φ p = s
+    · -- the new plaquette already has the wanted flux: keep e as it is
+      obtain ⟨x, hx⟩ : ∃ x, bval x = u e := by
+        rcases hu e with h | h
+        · exact ⟨false, by simp [bval, h]⟩
+        · exact ⟨true, by simp [bval, h]⟩
+      have hpar' : (ps.map φ).prod = (ps.map fun p => flux u (S.pdarts p)).prod := by
+        rw [hc] at hpar
+        rcases hs_pm with h | h <;> rw [h] at hpar <;> linarith
+      obtain ⟨cs, hlen, hcs⟩ := ih φ hφ hpar'
+      refine ⟨cs ++ [x], by simp [hlen], ?_⟩
+      rw [setBonds_concat u es cs e x hlen]
+      set v := setBonds u es cs with hv
+      have hvpm := setBonds_pm u hu es cs
+      have hve : v e = bval x := by rw [hx]; exact setBonds_notMem u es cs e he_es
+      intro r hr
+      rw [setOne_flux S hS v hvpm e x r]
+      simp only [ne_eq, hve, not_true_eq_false, false_and, if_false, one_mul]
+      rcases List.mem_append.mp hr with h | h
+      · exact hcs r h
+      · simp only [List.mem_singleton] at h; subst h
+        rw [flux_new_plaq hS hg hp hlt u cs, hs_def]; exact hc.symm
+    · -- flip e: this also flips q, so ask the smaller tree for the opposite flux at q
+      have hφp : φ p = -s := by
+        rcases hφ p with h | h <;> rcases hs_pm with h' | h' <;> rw [h, h'] at hc ⊢ <;> simp_all
+      obtain ⟨x, hx⟩ : ∃ x, bval x = -(u e) := by
+        rcases hu e with h | h
+        · exact ⟨true, by simp [bval, h]⟩
+        · exact ⟨false, by simp [bval, h]⟩
+      set φ' : Nat → Int := fun r => if r = q then -(φ r) else φ r with hφ'
+      have hφ'pm : ∀ r, φ' r = 1 ∨ φ' r = -1 := by
+        intro r; simp only [hφ']; split
+        · rcases hφ r with h | h <;> simp [h]
+        · exact hφ r
+      have hpar' : (ps.map φ').prod = (ps.map fun p => flux u (S.pdarts p)).prod := by
+        rw [prod_flip_one ps hg.nodup_plaq q hq, ]
+        rw [hφp] at hpar
+        rcases hs_pm with h | h <;> rw [h] at hpar <;> linarith
+      obtain ⟨cs, hlen, hcs⟩ := ih φ' hφ'pm hpar'
+      refine ⟨cs ++ [x], by simp [hlen], ?_⟩
+      rw [setBonds_concat u es cs e x hlen]
+      set v := setBonds u es cs with hv
+      have hvpm := setBonds_pm u hu es cs
+      have hve : v e = u e := setBonds_notMem u es cs e he_es
+      have hne : v e ≠ bval x := by
+        rw [hve, hx]; rcases hu e with h | h <;> rw [h] <;> decide
+      intro r hr
+      rw [setOne_flux S hS v hvpm e x r]
+      rcases List.mem_append.mp hr with h | h
+      · simp only [Grown.new_edge_iff hS hp hs h (hg.lt_F hF r h)]
+        rw [hcs r h]
+        by_cases hrq : r = q <;> simp [hne, hrq, hφ']
+      · simp only [List.mem_singleton] at h; subst h
+        rw [flux_new_plaq hS hg hp hlt u cs, hs_def]
+        simp only [ne_eq, hne, not_false_eq_true, he_p, and_self, if_true]
+        rw [hφp]; ring
+
+/-- **C14.4** the integers `0 .. 2^(F−1) − 1` produce *precisely* the sectors of the parity class: `φ` is
+    produced by some `n` iff the product of `φ` equals the product of the base fluxes.  On a closed lattice
+    (every edge two-sided) the product of the base fluxes is the global constraint `(−1)^E` of C05. -/
+theorem sectors_precisely (S : Sys) (hS : OK S) (hF : 0 < S.F) {ps es : List Nat} (hg : Grown S ps es) (u : Nat → Int)
+    (hu : ∀ e, u e = 1 ∨ u e = -1) (φ : Nat → Int) (hφ : ∀ p, φ p = 1 ∨ φ p = -1) :
+    (∃ n, n < 2 ^ es.length ∧ ∀ p ∈ ps, flux (nToUjkFlipped n u es) (S.pdarts p) = φ p)
+      ↔ (ps.map φ).prod = (ps.map fun p => flux u (S.pdarts p)).prod := by
+  constructor
+  · rintro ⟨n, _, hn⟩
+    rw [← sectors_parity S hS hF hg u hu (bitsMSB n es.length) (length_bitsMSB _ _)]
+    congr 1
+    apply List.map_congr_left
+    intro p hp; exact (hn p hp).symm
+  · intro hpar
+    obtain ⟨bs, hlen, hbs⟩ := sectors_reach S hS hF hg u hu φ hφ hpar
+    refine ⟨ofBits bs, by rw [← hlen]; exact ofBits_lt bs, ?_⟩
+    intro p hp
+    unfold nToUjkFlipped
+    rw [← hlen, bitsMSB_ofBits]; exact hbs p hp
+
+/-- **C14.4 (end to end)** with the tree actually computed by `plaquette_spanning_tree` on a connected
+    plaquette graph — for every candidate order — an assignment `φ` of ±1 to *all* `F` plaquettes is produced
+    by some `n < 2^(F−1)` iff its product equals the product of the base fluxes over all plaquettes. -/
+theorem enumeration_precisely (S : Sys) (hS : OK S) (hF : 0 < S.F) (hc : Connected S)
+    (ords : Nat → List Nat → List Nat) (hord : ∀ n l, l ⊆ ords n l) (u : Nat → Int) (hu : ∀ e, u e = 1 ∨ u e = -1)
+    (φ : Nat → Int) (hφ : ∀ p, φ p = 1 ∨ φ p = -1) :
+    (∃ n, n < 2 ^ (S.F - 1) ∧ ∀ p, p < S.F →
+        flux (nToUjkFlipped n u (chosen (run S ords (S.F - 1)))) (S.pdarts p) = φ p)
+      ↔ ((List.range S.F).map φ).prod = ((List.range S.F).map fun p => flux u (S.pdarts p)).prod := by
+  obtain ⟨_, hlen, hplen, _, hnd, hmem, hg, _⟩ := spanning_tree_spec S hS hF hc ords hord
+  have hinv := inv_run S hS hF ords (S.F - 1)
+  have hsub : (run S ords (S.F - 1)).plaqIn ⊆ List.range S.F := fun x hx => List.mem_range.mpr (hinv.ltF x hx)
+  have hperm : (run S ords (S.F - 1)).plaqIn.Perm (List.range S.F) :=
+    (hnd.subperm hsub).perm_of_length_le (by simp; omega)
+  rw [← (hperm.map φ).prod_eq, ← (hperm.map fun p => flux u (S.pdarts p)).prod_eq,
+    ← sectors_precisely S hS hF hg u hu φ hφ, hlen]
+  constructor
+  · rintro ⟨n, hn, h⟩; exact ⟨n, hn, fun p hp => h p (hinv.ltF p hp)⟩
+  · rintro ⟨n, hn, h⟩; exact ⟨n, hn, fun p hp => h p (hmem p hp)⟩
+
 /-! ### non-vacuity: three plaquettes in a row (plaquette 0 –e1– plaquette 1 –e3– plaquette 2) -/
 
 def exS : Sys :=
@@ -617,5 +897,9 @@ example : spanningTree exS (fun _ l => l) = [some 1, some 3] := by decide
 example : spanningTree exS (fun _ l => l.reverse) = [some 1, some 3] := by decide
 example : (List.range 4).map (fun n => (List.range 3).map fun p => flux (nToUjkFlipped n (fun _ => 1) [1, 3]) (exS.pdarts p))
     = [[1, 1, -1], [1, -1, 1], [-1, -1, -1], [-1, 1, 1]] := by decide
+
+/-- the four sectors above are exactly the four of the eight sign patterns whose product is that of the base sector -/
+example : ((List.range 8).map fun k => [bval (k % 2 == 1), bval (k / 2 % 2 == 1), bval (k / 4 % 2 == 1)]).filter (fun φ => φ.prod == -1)
+    = [[-1, 1, 1], [1, -1, 1], [1, 1, -1], [-1, -1, -1]] := by decide
 
 end C14
